@@ -1,6 +1,7 @@
 CONSTANTS
   MaxF = 3
   OrdF = 2
+  MultiKinds = {"Transport", "Non2xxNonJSON", "EmptyBody", "NonJSON", "ErrorsNoData", "DataNull", "WrongEntityCount", "PartialData", "Non2xxJSON", "RateLimited"}
 SPECIFICATION GenSpec
 CONSTRAINT Emit
 CHECK_DEADLOCK FALSE
